@@ -23,13 +23,62 @@ fn is_overflow(msg: &str) -> bool {
 /// Workload mix: C01 space, C04's single-file/frequent-sync shape, and small archives whose
 /// prefixes are opened (C14 space, a sample of prefixes per archive).
 fn spec_for(base_seed: u64, index: u64) -> (PipeSpec, &'static str) {
-    match index % 4 {
-        0 | 1 => (pipeline::generate(seed::run_seed(base_seed ^ 0xC18, index)), "c01"),
+    let rs = seed::run_seed(base_seed ^ 0xC18, index);
+    match index % 8 {
+        0 | 1 | 4 => (pipeline::generate(rs), "c01"),
+        // library-API driver (drain / sync_and_flush at generated points), a quarter of them with
+        // a queue smaller than one contig
+        5 => (pipeline::generate_api(rs, 25), "c01"),
         2 => {
-            let g = super::c04::generate_group(seed::run_seed(base_seed ^ 0xC18, index), 1);
+            let g = super::c04::generate_group(rs, 1);
             (g.members.into_iter().next().unwrap(), "c04")
         }
-        _ => (super::c14::small_spec(seed::run_seed(base_seed ^ 0xC18, index)), "c14"),
+        // queue capacity below the size of one contig (the over-capacity admission path of the
+        // queue and everything behind it), CLI driver
+        6 => (pipeline::generate_with(rs, 100), "c04"),
+        _ => (super::c14::small_spec(rs), "c14"),
+    }
+}
+
+/// Reader queries whose arithmetic is on C18's anchor list (`raw_length - k` for later segments
+/// in the length and range paths): lengths, ranges around both ends and around k, unknown names.
+/// Returns a transcript string (answers only, no messages) and the first panic message.
+fn reader_queries(w: &crate::gen::genome::Workload, world: ragc_common::verif::World, k: usize) -> (String, Option<String>, ragc_common::verif::World) {
+    use ragc_core::{Decompressor, DecompressorConfig};
+    let names: Vec<(String, String, usize)> = w
+        .samples
+        .iter()
+        .flat_map(|s| {
+            let n = s.contigs.len();
+            [0, n / 2, n - 1].into_iter().map(move |i| (s.name.clone(), s.contigs[i].0.trim().to_string(), s.contigs[i].1.len()))
+        })
+        .take(24)
+        .collect();
+    let (res, world) = crate::simrun::run_plain(world, move || -> String {
+        let mut out = String::new();
+        let Ok(mut d) = Decompressor::open(pipeline::ARCHIVE_PATH, DecompressorConfig { verbosity: 0 }) else { return "open-err".into() };
+        for (s, c, len) in &names {
+            match d.get_contig_length(s, c) {
+                Ok(l) => out.push_str(&format!("L{l};")),
+                Err(_) => out.push_str("Lerr;"),
+            }
+            let pts = [(0usize, *len), (0, 1), (len.saturating_sub(1), len + 5), (k.saturating_sub(1), k + 1), (len / 2, len / 2 + k + 2), (*len, len + 1), (5, 3)];
+            for (a, b) in pts {
+                match d.get_contig_range(s, c, a, b) {
+                    Ok(v) => out.push_str(&format!("R{}:{:x};", v.len(), seed::fnv64(&v))),
+                    Err(_) => out.push_str("Rerr;"),
+                }
+            }
+        }
+        out.push_str(if d.get_contig_length("no-such-sample", "x").is_err() { "U1err;" } else { "U1ok;" });
+        if let Some((s, _, _)) = names.first() {
+            out.push_str(if d.get_contig_range(s, "no-such-contig", 0, 10).is_err() { "U2err;" } else { "U2ok;" });
+        }
+        out
+    });
+    match res {
+        Ok(t) => (t, None, world),
+        Err(p) => ("panic".into(), Some(p), world),
     }
 }
 
@@ -65,6 +114,15 @@ fn judge(spec: &PipeSpec, kind: &str, w: &crate::gen::genome::Workload, run: pip
                         if is_overflow(d) {
                             overflow = Some(format!("reader: {d}"));
                         }
+                    }
+                }
+                let (qt, qpanic, world) = reader_queries(w, world, spec.cfg.k as usize);
+                h.update(qt.as_bytes());
+                r.count("reader_query_transcripts", 1);
+                if let Some(m) = qpanic {
+                    summary.push_str("; reader queries panicked");
+                    if is_overflow(&m) {
+                        overflow = Some(format!("reader queries: {m}"));
                     }
                 }
                 if kind == "c14" {
@@ -155,7 +213,7 @@ impl Prop for C18 {
     fn engine(&self) -> &'static str { "pipeline-sim x 2 build profiles" }
     fn level(&self) -> &'static str { "exploration" }
     fn rule(&self) -> &'static str {
-        "each evaluation = one seeded run spec (workloads of the C01, C04 and C14 spaces incl. >= pack-cardinality contigs in one file and truncated archives) executed twice, by the release build and by the same build with overflow-checks and debug-assertions on, under the SAME recorded seed-derived schedule; oracle: equal transcripts (Ok/Err of create, archive SHA-256, round-trip verdict, verdict per truncation point) and no arithmetic-overflow panic in the checked run. distinct_nontrivial = distinct schedule-trace digests among runs with >=2 tasks and >=1 preemption."
+        "each evaluation = one seeded run spec (workloads of the C01, C04 and C14 spaces incl. >= pack-cardinality contigs in one file, queue capacities below one contig, the library-API driver, verbosity 0..3, truncated archives; length and range queries on the reader) executed twice, by the release build and by the same build with overflow-checks and debug-assertions on, under the SAME recorded seed-derived schedule; oracle: equal transcripts (Ok/Err of create, archive SHA-256, round-trip verdict, answers of the length/range queries, verdict per truncation point) and no arithmetic-overflow panic in the checked run. distinct_nontrivial = distinct schedule-trace digests among runs with >=2 tasks and >=1 preemption."
     }
     fn runs(&self, tier: Tier) -> u64 {
         match tier { Tier::Quick => 16_000, Tier::Thorough => 800_000 }
